@@ -17,6 +17,8 @@ func init() {
 	RegisterEngine(&Engine{Name: "lexfsm", Run: lexfsm.Run})
 	engineKinds["lexfsm"] = "finite-automaton extraction by abstract interpretation of the lexer's SSA; symbolic effect of one Lexer.Next iteration"
 
+	RegisterEngine(&Engine{Name: "abort", Run: abortRun})
+	engineKinds["abort"] = "inventory of every abort site (panic, log.Panic/Fatal, os.Exit, unchecked assertion, integer division) with a per-site discharging argument taken from the other engines' verdicts"
 	RegisterEngine(&Engine{Name: "bcai", Run: bcai.Run})
 	engineKinds["bcai"] = "abstract interpretation of the compiler: every byteCode method over opaque children answered from tabulated summaries (node type x flag context x operand slot), code segment as item list with symbolic labels; stack, tmp and jump simulation of the emitted code"
 	RegisterEngine(&Engine{Name: "enc", Run: enc.Run})
@@ -184,11 +186,130 @@ func init() {
 		NotDecided: "the round-trip law itself (print then parse is the identity needs a printer and an equality over all trees).",
 	})
 	RegisterSpec(&Spec{
+		ID: "C01", Title: "Compiled execution matches the definitional semantics of the language",
+		Rules: []RuleRef{
+			{"bcai", "B1", 25, "no emitted instruction is meaningless to the VM: every operand kind is one the handler accepts"},
+			{"bcai", "T1", 25, "every emitted opcode has a handler"},
+			{"bcai", "T2m", 2, "every operator lexeme is compiled to the opcode of the same name"},
+			{"bcai", "B5", 25, "strict left-to-right evaluation: children compiled in source order into the slots the VM reads them from"},
+			{"bcai", "B2", 25, "each node's code leaves exactly its announced result on the operand stack, in every context"},
+			{"bcai", "B3", 25, "jumps are patched once, into the node's own code; code is only appended"},
+			{"bcai", "B4", 25, "the result descriptor tells where the value is"},
+			{"bcai", "B6", 25, "conditions are tested with the right polarity"},
+			{"bcai", "B9", 25, "tmp is never read after it may have been overwritten"},
+			{"bcai", "B10", 25, "operands address constants of the right type"},
+			{"vmshape", "V1", 60, "the VM fetches each operand from the slot the instruction names"},
+			{"vmshape", "V3", 70, "the VM applies the operator of the opcode to (left, right) in that order, also in the TMP variants"},
+			{"vmshape", "T1", 60, "every declared opcode has a case clause; an unknown one aborts"},
+			{"valtab", "A1", 900, "each operator method applies the documented primitive with int->float promotion on mixed pairs"},
+			{"grammar", "T2", 20, "every operator the grammar accepts is wrapped and has a compiler case"},
+		},
+		Technique:  "abstract interpretation of the compiler with tabulated child summaries (inductive over the tree), symbolic effect summaries of every VM handler, operator table of package value; relational comparison of what is emitted with what is accepted",
+		Decides:    "for all programs (all trees of the class table under all reachable flag contexts): emitted instruction shapes are accepted by the VM; operator identity lexeme -> opcode -> value method -> primitive; children compiled in source order into the operand slots the VM pops in reverse; every node's code is stack neutral up to its announced result; jumps resolve inside the node's code; tmp is read only while valid.",
+		NotDecided: "that the values computed agree with a reference evaluator (the meaning of each statement form, closure and iterator run-time behaviour, error precedence): run-time equivalences no static rule here stands for.",
+		Assumptions: []string{"child lists are explored with 0..3 elements (Block 2..3, loop variables 1..2)", "the class table of the grammar engine (which node types can occur in which field) after the symbol table rewrite"},
+	})
+	RegisterSpec(&Spec{
+		ID: "C02", Title: "for loops consume exactly what their iterators yield, lazily and in order",
+		Rules: []RuleRef{
+			{"own", "O2", 12, "a suspended generator's closure stack cannot be overwritten by the loop body (own closure stack per context)"},
+			{"bcai", "B9", 25, "the value of a yield does not live in the VM-wide tmp register across the loop body"},
+			{"bcai", "B8", 25, "iterator contexts are created, resumed and destroyed under consistent ids; a return destroys the loops it leaves"},
+			{"bcai", "B2", 25, "the loop variable receives exactly one value per resume, the previous body result is dropped, one result remains"},
+			{"vmshape", "V6", 50, "m == ctxp.m after every instruction"},
+			{"vmshape", "V8", 60, "CCONT/YIELD/SCONT/DCONT/RCONT follow the coroutine transfer protocol the compiler's layout assumes"},
+		},
+		Technique:  "coroutine-aware stack simulation of the emitted loop layout; symbolic effect of the five context opcodes; ownership of the closure stack in memory.Clone",
+		Decides:    "fork/resume/destroy pairing and id consistency in the compiled loop, one pushed value per resume and stack neutrality of the loop layout (with the transfer semantics of the context opcodes, themselves extracted from the VM), that a yield's value survives the body, that parent and forked context own their closure stacks, context switch integrity in the VM.",
+		NotDecided: "laziness and interleaving order as observable behaviour, cross product / lock-step enumeration, behaviour at recursion depth > 1 of the function containing the loop (context hashing by call depth), recycling of contexts over histories.",
+	})
+	RegisterSpec(&Spec{
+		ID: "C05", Title: "No accepted program can crash the interpreter; failures are calc runtime errors",
+		Rules: []RuleRef{
+			{"abort", "C5", 80, "every abort site of the module is discharged by a named argument (or is documented behaviour / environment)"},
+			{"bcai", "B1", 25, "'unknown source' / 'unexpected dst' are unreachable: emitted kinds are accepted"},
+			{"bcai", "B10", 25, "'unknown global', 'cannot convert value to array', SetFrame panic are unreachable"},
+			{"bcai", "B8", 25, "'context not found' is unreachable"},
+			{"bcai", "T1", 25, "'unknown opcode' is unreachable"},
+			{"valtab", "A1", 900, "every operator on every kind pair returns a value or a documented error, never aborts"},
+			{"valtab", "A2", 1, "integer division and modulo by zero are errors, not Go panics"},
+			{"valtab", "A6", 1, "no shift by a possibly negative signed count"},
+			{"valtab", "A5", 2, "out-of-range shift counts are reported as errors"},
+			{"valtab", "A7", 21, "rendering any value cannot abort"},
+			{"grammar", "G4", 14, "parser transformers and literal conversion cannot abort"},
+			{"vmshape", "V4", 90, "operator errors become dumpStack + returned error"},
+		},
+		Technique:  "abort-site inventory over the SSA of all packages with per-site discharge by the verdicts of the exhaustive abstract explorations (compiler, operator table, grammar shapes, lexer automaton)",
+		Decides:    "every explicit abort (panic, log.Panic*, log.Fatal*, os.Exit), unchecked type assertion and non-constant integer division in the module is either unreachable for parseable programs (by a named rule that reports a violation whenever its exploration reaches an abort), documented behaviour (exit) or an environment failure; operators never abort on any kind pair.",
+		NotDecided: "slice/array index expressions and nil dereferences are not inventoried (partly covered for the value stack by the memory rules); stack exhaustion of the host on deep recursion.",
+	})
+	RegisterSpec(&Spec{
+		ID: "C08", Title: "A session survives errors: a failed statement leaves no trace but its globals",
+		Rules: []RuleRef{
+			{"vmshape", "V4", 90, "every failure inside Run takes the dumpStack path"},
+			{"vmshape", "O6", 1, "dumpStack resets the main context: memory, ip at the end of the code, child contexts"},
+			{"own", "O6", 2, "Reset drops sp, frame pointers and closure stack and keeps the globals"},
+			{"pipeline", "P1", 2, "a parse error adds no code (nothing compiled or run)"},
+			{"pipeline", "P6", 50, "code and data segments only grow; nothing outside the compiler rewrites them"},
+			{"bcai", "B3", 25, "the compiler only appends (so resuming at len(CS) skips exactly the failed statement)"},
+			{"vmshape", "V7", 6, "a top-level return resets sp, pushes the value and jumps to the end of the code"},
+		},
+		Technique:  "error-return paths of every VM handler; symbolic effect of dumpStack and Reset; append-only discipline of the segments on the SSA of all writers",
+		Decides:    "all failures reset; the reset is complete except for globals; a parse error adds no code; code and data only grow so that execution resumes after the failed statement and earlier code stays valid.",
+		NotDecided: "equality of later results with a failure-free twin session; effects of a failure on recycled contexts of the free list (local to one Run).",
+	})
+	RegisterSpec(&Spec{
+		ID: "C09", Title: "Evaluation leaves the machine clean: no stack, frame or context residue",
+		Rules: []RuleRef{
+			{"bcai", "B2", 25, "every statement form in discarded / used / returning position leaves exactly one value or none; loop back-edges have equal height"},
+			{"bcai", "B4", 25, "the descriptor says whether a value was left"},
+			{"bcai", "B8", 25, "every iterator context a loop creates is destroyed on exhaustion and on return"},
+			{"bcai", "B3", 25, "no instruction is removed after its operands' code was emitted"},
+			{"vmshape", "V7", 6, "frame and closure stacks are pushed and popped pairwise"},
+			{"vmshape", "V8", 60, "DCONT/RCONT free every context in their range and remove the registration"},
+		},
+		Technique:  "stack-height simulation over the control-flow graph of the emitted items (with coroutine transfer edges), inductive over the tree by child summaries",
+		Decides:    "for all programs: operand stack neutrality of every node in every context including loops (heights agree at joins and back-edges, so storage does not grow with the iteration count), pairing of frames and closures in CALL/RET, destruction of every iterator context.",
+		NotDecided: "heap residue of the free list; the high-water mark of the stack (never shrunk by design); the slot a top-level return leaves in script mode until the next statement resets sp.",
+	})
+	RegisterSpec(&Spec{
+		ID: "C12", Title: "An expression means the same wherever it is written",
+		Rules: []RuleRef{
+			{"bcai", "B2", 25, "every code-generation strategy (temp accumulation, PUSHTMP flush, discard / returning variants) delivers the value where the descriptor says"},
+			{"bcai", "B4", 25, "result honesty in every context"},
+			{"bcai", "B9", 25, "tmp strategies never read a clobbered tmp (call in right operand, array literal, yield)"},
+			{"bcai", "B6", 25, "conditions are tested in every position, with negation folded correctly"},
+			{"bcai", "B1", 25, "no position-dependent operand kind the VM rejects"},
+			{"vmshape", "V5", 3, "INC computes operand+1 with the same method as '+' and stores like MOV"},
+			{"vmshape", "V10", 30, "JMPF and JMPT both demand a boolean; operator errors pass through unchanged"},
+		},
+		Technique:  "all (node type x flag context) variants of the compiler checked against the same summaries; sibling comparison of VM handlers",
+		Decides:    "context independence of the protocol: for every node type, every flag context reachable from the roots yields code that delivers the node's value where its descriptor says, tests conditions, and keeps tmp valid; INC is Arith(ADD,1) stored like MOV; both conditional jumps type-check.",
+		NotDecided: "equality of observable results between two placements (a relational run-time property); whether INC is selected exactly for x = x + 1 shapes.",
+	})
+	RegisterSpec(&Spec{
+		ID: "C17", Title: "Built-in functions keep their contracts for every argument",
+		Rules: []RuleRef{
+			{"vmshape", "V12", 2, "read takes whole lines from one buffered reader that outlives the instruction"},
+			{"vmshape", "V11", 2, "toa and write render through value.Type.String"},
+			{"vmshape", "V10", 30, "aton of a non-string is a type error, an unconvertible string a conversion error; wrong arity is an arity error, a non-function callee a type error"},
+			{"vmshape", "V7", 6, "argument count is checked before the frame is pushed"},
+			{"valtab", "A7", 21, "rendering is total for every kind of value"},
+			{"bcai", "B1", 25, "the builtin trees compile to instructions the VM accepts (they are part of the class table)"},
+		},
+		Technique:  "symbolic effect of the builtin opcodes' handlers",
+		Decides:    "one shared line reader; same renderer for toa and write; error classes for wrong argument types and counts; the builtin trees are compiled by the same checked methods.",
+		NotDecided: "aton(toa(n)) = n, the sequences produced by fromto / elems / indices (their trees are data; judging them without running them would mean freezing the source), float formatting precision.",
+	})
+	RegisterSpec(&Spec{
 		ID: "C19", Title: "Runtime error reports point at the real failure",
 		Rules: []RuleRef{
 			{"vmshape", "V4", 40, "the failing ip, the current context and exactly the fetched operands reach the report"},
 			{"vmshape", "V10", 30, "the error class reported is the class of the failure"},
 			{"vmshape", "V1", 60, "operands are fetched from the slot the instruction names"},
+			{"bcai", "B7", 25, "debug info is keyed by the address of the CALL (the return address the stack dump looks up), with the right argument count"},
+			{"own", "O8", 20, "a forked context receives the whole top frame including the return address slot the stack dump reads"},
+			{"valtab", "A7", 21, "rendering operand values in the report cannot fail"},
 		},
 		Technique:  "abstract interpretation of vm.Run per opcode; assertions on the error-return paths",
 		Decides:    "on every path of every opcode handler that ends the run with an error, the report function receives the current context, the ip of the failing instruction, the error that is returned and exactly the operand values fetched on that path in slot order; failures detected by the VM itself use the documented class.",
